@@ -166,7 +166,7 @@ theorem SimpleRpcs.plain : ∀ es, SimpleRpcs es → PlainList es
   | e :: r, h => ⟨SimpleRpc.plain e h.1, SimpleRpcs.plain r h.2⟩
 
 theorem SimpleService.plain : ∀ e, SimpleService e → Plain e
-  | .block _ _ _ _ _ _ ks, h => ⟨h.1, h.2.1, SimpleRpcs.plain ks h.2.2.2.2.2⟩
+  | .block _ _ _ _ _ _ ks, h => ⟨h.1, h.2.1 ▸ BlockOpts.nil, SimpleRpcs.plain ks h.2.2.2.2.2⟩
   | .field _, h => h.elim
   | .rpc _ _ _ _ _ _, h => h.elim
 
@@ -275,14 +275,14 @@ theorem top_service : ∀ (e : Item), SimpleService e → ∀ (s G : Nat) (a : A
   | .block kw t l i name opts kids, h, s, G, a, more, hm, hG => by
     obtain ⟨hl, ho, hname, hkw, ht, hk⟩ := h
     subst ho hkw ht
-    simp only [need1] at hG
+    rw [need1_block_nil] at hG
     have htr : trailOf (toksOf (elemsCmds (0 + 1) kids true 0 0) false (s + 1) ++
         T (.sym '}') (rdKids kids true 0 0 (s + 1) false).2 :: more) = "" := trailOf_toksOf _ _ _ _ rfl
     have htr0 : trailOf (T (.sym '}') s :: more) = "" := rfl
     by_cases hempty : kids.isEmpty = true
     · have hnil : kids = [] := by simpa using hempty
       subst hnil
-      simp only [itemToks, rdItem, List.isEmpty_nil, if_true]
+      simp only [itemToks_block_nil, rdItem_block_nil, List.isEmpty_nil, if_true]
       rw [lineToks_empty 0 "service" name s isIdent_service hname]
       simp only [List.cons_append, List.nil_append]
       rw [topLevel_service_step]
@@ -290,7 +290,7 @@ theorem top_service : ∀ (e : Item), SimpleService e → ∀ (s G : Nat) (a : A
       rw [serviceBody_close]
       simp only [mkOpts, groupOpts, unlocateShared, List.map_nil, htr0, mkLoc_plain]
     · have hne : kids.isEmpty = false := by simpa using hempty
-      simp only [itemToks, rdItem, hne, Bool.false_eq_true, if_false]
+      simp only [itemToks_block_nil, rdItem_block_nil, hne, Bool.false_eq_true, if_false]
       rw [lineToks_open 0 "service" name s isIdent_service hname, lineToks_close]
       simp only [List.cons_append, List.nil_append, List.append_assoc]
       rw [topLevel_service_step]
